@@ -9,3 +9,4 @@ ASSUMPTIONS = ["dynamic confirmation only: one small model per structure, one pa
 
 from vt.contracts import iface_state  # noqa: F401,E402
 from vt.contracts import frames_c17  # noqa: F401,E402
+from vt.contracts import selection_alias  # noqa: F401,E402
